@@ -55,25 +55,64 @@ def run(chk, prog):
     chk.check(sp.simplify(b + sp.tan(ang)) == 0, "R1", site_rf, "linear RF offset has slope d/dx = -tan(angle) (got %s)" % b, "RF:slope:%s" % b)
     chk.check(lin["loops"][0].lo == 0 and str(lin["loops"][0].hi) == "_xsize" and lin["idx"] == (x,), "R1", site_rf,
               "the RF offset of column x is stored at _offset[x] for all columns", "RF:range")
-    fd = I.fold_stores(sdm.accesses, "_offset")
-    A.require(len(fd) == 1, "DriftMap: offset formula not found")
-    fd = fd[0]
-    y = fd["loops"][0].sym
-    isym = [L.sym for a in I._through_scalar_accumulators(sdm.accesses, "_offset") if a.kind == "store" and a.base == "_offset" for L in a.loops if L.sym is not None and L.sym != y]
-    A.require(isym, "DriftMap: slip loop not found")
-    i_ = isym[0]
     slip0 = sp.IndexedBase("slip")[0]
-    off_d = sp.simplify(fd["value"].subs(i_, 0))
-    a_ = sp.simplify(sp.diff(off_d, y))
     d0, d1 = G.AX(0, "delta"), G.AX(1, "delta")
-    site_d = A.loc(dm, {"line": fd["line"]})
-    chk.check(sp.simplify(a_ - slip0 * d1 / d0) == 0, "R1", site_d, "drift offset (first slip term) has slope d/dy = slip[0]*delta1/delta0 (got %s)" % a_, "Drift:slope:%s" % a_)
-    # higher slip terms carry a positive power of the relative energy deviation: they vanish to first order
-    gen = sp.simplify(fd["value"] * d0)
-    e_rel = (G.AX(1, "min") + d1 * y) * sp.Symbol("AX1_scale_ElectronVolt", positive=True) / sp.Symbol("E0", real=True)
-    want = sp.IndexedBase("slip")[i_] * (G.AX(1, "min") + d1 * y) * e_rel ** i_
-    chk.check(sp.simplify(gen - want) == 0, "R1", site_d, "slip term i = slip[i]*p*(p*scale/E0)^i: terms i >= 1 are of higher order in p (got %s)" % gen,
-              "Drift:terms:%s" % gen)
+    # closed form of the drift table by bounded unrolling (E8): the slip vector has as many elements as main puts into it
+    from .. import unroll as U
+    from ..algebra import Unconvertible
+    mainf0 = prog.fn("main")
+    sl0 = [d for st in A.walk(mainf0["body"]) if st["k"] == "DeclStmt" for d in st["decls"] if d.get("k") == "VarDecl" and d["name"] == "slip"]
+    il0 = [t for d in sl0 if isinstance(d.get("init"), dict) for t in A.walk(d["init"]) if t["k"] == "InitListExpr"]
+    A.require(len(sl0) == 1 and il0 and il0[-1].get("inits"), "main: slip = {...} not found")
+    K = len(il0[-1]["inits"])
+    unrolled = None
+    try:
+        u1 = U.Unroller(dm, hooks=[hook], vec_len={"slip": 1}, target_fields={"_offset"}).run()
+        uK = U.Unroller(dm, hooks=[hook], vec_len={"slip": K}, target_fields={"_offset"}).run()
+        s1, sK = u1.stores("_offset"), uK.stores("_offset")
+        if len(s1) == 1 and len(sK) == 1 and len(sK[0][3]) == 1:
+            unrolled = (s1[0], sK[0], uK.opaque_calls)
+    except Unconvertible as e_:
+        chk.notes.append("C03: DriftMap constructor not unrollable (%s); falling back to the summand form" % e_)
+    if unrolled is not None:
+        (idx1, v1, line1, loops1), (idxK, vK, lineK, loopsK), opaque = unrolled
+        y, ybound = loopsK[0]
+        site_d = A.loc(dm, {"line": lineK})
+        chk.check(idxK == y and str(ybound) == "_ysize", "R1", site_d, "the drift offset of row y is stored at _offset[y] for all rows (index %s, y < %s)" % (idxK, ybound),
+                  "Drift:range")
+        for cal, ln in opaque:
+            cf = prog.fns(cal)
+            wr = [a for f_ in cf if f_.get("body") for a in I.scan(f_, hooks=[hook]).accesses if a.kind == "store" and a.base == "_offset"]
+            chk.check(cf and not wr, "R1", A.loc(dm, {"line": ln}), "%s(), called by the constructor after the table is filled, does not write _offset" % cal.split("::")[-1],
+                      "Drift:later-writer:%s" % cal.split("::")[-1])
+        off_d = sp.simplify(v1.subs(loops1[0][0], y))
+        a_ = sp.simplify(sp.diff(off_d, y))
+        chk.check(sp.simplify(a_ - slip0 * d1 / d0) == 0, "R1", site_d, "drift offset (first slip term) has slope d/dy = slip[0]*delta1/delta0 (got %s)" % a_, "Drift:slope:%s" % a_)
+        pK = G.AX(1, "min") + d1 * y
+        e_rel = pK * sp.Symbol("AX1_scale_ElectronVolt", positive=True) / sp.Symbol("E0", real=True)
+        want = sum(sp.IndexedBase("slip")[i] * pK * e_rel ** i for i in range(K))
+        gen = sp.simplify(vK * d0)
+        chk.check(sp.simplify(sp.expand(gen - want)) == 0, "R1", site_d,
+                  "with the %d slip coefficients of main the row offset is sum_i slip[i]*p*(p*scale/E0)^i / delta0: terms i >= 1 are of higher order in p (got %s)" % (K, sp.factor(gen)),
+                  "Drift:terms:%s" % sp.factor(gen))
+    else:
+        fd = I.fold_stores(sdm.accesses, "_offset")
+        A.require(len(fd) == 1, "DriftMap: offset formula not found")
+        fd = fd[0]
+        y = fd["loops"][0].sym
+        isym = [L.sym for a in I._through_scalar_accumulators(sdm.accesses, "_offset") if a.kind == "store" and a.base == "_offset" for L in a.loops if L.sym is not None and L.sym != y]
+        A.require(isym, "DriftMap: slip loop not found")
+        i_ = isym[0]
+        off_d = sp.simplify(fd["value"].subs(i_, 0))
+        a_ = sp.simplify(sp.diff(off_d, y))
+        site_d = A.loc(dm, {"line": fd["line"]})
+        chk.check(sp.simplify(a_ - slip0 * d1 / d0) == 0, "R1", site_d, "drift offset (first slip term) has slope d/dy = slip[0]*delta1/delta0 (got %s)" % a_, "Drift:slope:%s" % a_)
+        # higher slip terms carry a positive power of the relative energy deviation: they vanish to first order
+        gen = sp.simplify(fd["value"] * d0)
+        e_rel = (G.AX(1, "min") + d1 * y) * sp.Symbol("AX1_scale_ElectronVolt", positive=True) / sp.Symbol("E0", real=True)
+        want = sp.IndexedBase("slip")[i_] * (G.AX(1, "min") + d1 * y) * e_rel ** i_
+        chk.check(sp.simplify(gen - want) == 0, "R1", site_d, "slip term i = slip[i]*p*(p*scale/E0)^i: terms i >= 1 are of higher order in p (got %s)" % gen,
+                  "Drift:terms:%s" % gen)
     a = sp.Symbol("a", positive=True)
     c1 = -b.subs(ang, a)                       # Y' = Y + c1 X
     c2 = -a_.subs({slip0: a, d1: d0})          # X' = X + c2 Y'
